@@ -10,8 +10,10 @@ sequential schedules, validated (not proved).
 On break: harness `oracle` evaluates the property itself on the real cache (ground truth versioned by the
 harness) and enumerates all interleavings of 2 writers x 1 invalidator (x flusher).
 """
+import hashlib
 import os
 import re
+import shutil
 import types
 
 import verif
@@ -52,17 +54,19 @@ def _fingerprint(ostream, verdict):
     and the xDS type concerned (so that different key/invalidation defects are different findings)."""
     f = verdict.split()
     clause = f[1] if len(f) > 1 else "?"
+    if ostream == "writers" and clause.startswith("stale-after-"):
+        clause = "stale"   # which op ran last is not part of the input class
     fp = "%s:%s" % (ostream, clause)
     d = [t for t in f if t.startswith("diff:")]
     if ostream in ("keys", "writers") and d:
-        parts = d[0].split(":")
+        body = d[0][5:]                        # after "diff:"
         attr = [t[5:] for t in f if t.startswith("attr=")]
-        if not attr and len(parts) >= 5:      # seq: diff:<round>:<pos>:<attr>:<resource>
-            attr = [parts[3]]
-        res = parts[-1] if len(parts) < 5 else ":".join(parts[4:])
+        m = re.match(r"^(\d+):(\d+):([^:]+):(.*)$", body)   # seq: <round>:<pos>:<attr>:<resource>
+        if m and not attr:
+            attr, body = [m.group(3)], m.group(4)
         if attr:
             fp += ":" + attr[0]
-        fp += ":" + res.split("/")[0]
+        fp += ":" + body.split("/")[0]         # xDS type (cds/eds/rds/sds)
     return fp, clause
 
 
@@ -111,27 +115,44 @@ def oracle(ctx, stream, case_lines, rep):
 
 
 def build_harness(ctx):
-    """Plain build (hooks of the first C06 hook commits) must work; the build with -tags c06ext additionally needs
-    the newer entry points of pilot/pkg/xds/zz_verif_c06.go (delta request/push, typed config dump). A tree whose
-    hook file lacks them is checked with the plain binary and the broken tie is reported."""
-    if not ctx.go_build():
-        return False
-    out = ctx.bin_path + ".ext"
-    if os.path.exists(out):
-        os.remove(out)
+    """ONE build in the normal case: the harness with -tags "verif c06ext" (needs the newer entry points of
+    pilot/pkg/xds/zz_verif_c06.go: delta request/push, typed config dump). Only if that fails the plain harness
+    (hooks of the first C06 hook commits) is built and the broken tie is reported."""
+    pkg = ctx.lc
+    os.makedirs(verif.BIN, exist_ok=True)
     extra = []
-    if os.path.realpath(verif.REPO) != "/repo":
-        extra = ["-modfile=" + os.path.join(ctx.work, "alt.go.mod")]
-    rc, log, dt = verif.sh(["go", "build", "-tags", "verif c06ext"] + extra + ["-o", out, "./c06"], cwd=verif.HARNESS,
-                           env=verif.go_env(), timeout=1500)
+    if os.path.realpath(verif.REPO) == "/repo":
+        out = os.path.join(verif.BIN, pkg + ".ext")
+        try:
+            shutil.copyfile(os.path.join(verif.REPO, "go.sum"), os.path.join(verif.HARNESS, "go.sum"))
+        except OSError:
+            pass
+    else:
+        out = os.path.join(verif.BIN, pkg + ".ext.alt-" + hashlib.sha1(verif.REPO.encode()).hexdigest()[:8])
+        alt = os.path.join(ctx.work, "alt.go.mod")
+        with open(os.path.join(verif.HARNESS, "go.mod")) as f:
+            txt = f.read().replace("=> /repo", "=> " + os.path.realpath(verif.REPO))
+        with open(alt, "w") as f:
+            f.write(txt)
+        shutil.copyfile(os.path.join(verif.REPO, "go.sum"), os.path.join(ctx.work, "alt.go.sum"))
+        extra = ["-modfile=" + alt]
+    if os.path.exists(out):
+        os.remove(out)  # never run a stale binary
+    cmd = ["go", "build", "-tags", "verif c06ext"] + extra + ["-o", out, "./" + pkg]
+    rc, log, dt = verif.sh(cmd, cwd=verif.HARNESS, env=verif.go_env(), timeout=1500)
+    if rc != 0 and ".cache/go-build" in log and "no such file or directory" in log:
+        rc, log, dt = verif.sh(cmd, cwd=verif.HARNESS, env=verif.go_env(), timeout=1500)  # build cache trimmed meanwhile
     ctx.log("go build -tags 'verif c06ext' ./c06 rc=%d (%.1fs)" % (rc, dt))
     if rc == 0:
         ctx.bin_path = out
-    else:
-        ctx.tie_broken("harness-build:c06-ext-hooks",
-                       "the newer verif hooks (VerifC06NewDeltaConnection, VerifC06ProcessDeltaRequest, VerifC06PushConnectionDelta, "
-                       "VerifC06ConfigDumpTypes in pilot/pkg/xds/zz_verif_c06.go) do not build against this tree; delta and typed "
-                       "config-dump writers were not exercised:\n" + log)
+        ctx.harness_ok = True
+        return True
+    if not ctx.go_build():
+        return False
+    ctx.tie_broken("harness-build:c06-ext-hooks",
+                   "the newer verif hooks (VerifC06NewDeltaConnection, VerifC06ProcessDeltaRequest, VerifC06PushConnectionDelta, "
+                   "VerifC06ConfigDumpTypes in pilot/pkg/xds/zz_verif_c06.go) do not build against this tree; delta and typed "
+                   "config-dump writers were not exercised:\n" + log)
     return True
 
 
@@ -179,11 +200,14 @@ def run(ctx):
         "dependency that its data does not reflect (StartPush stamps Start after the snapshot is published; processRequest and the "
         "debug config dump reuse the (LastPushContext, LastPushTime) pair; ProxyUpdate/AdsPushAll read the pair under "
         "pushContextMu) - validated on the real code by stream writers (sequential) and the race stress (statistical), not proved",
-        "GenLocal + in-sync invalidation (hypothesis of never_stale / cache_invisible): DependentConfigs() of every entry names every "
-        "config (and endpoint set) its generation reads, and every accepted change of one of them reaches Clear/ClearAll "
-        "(dropCacheForRequest, EndpointIndex.clearCacheForService, PeerAuthentication => EDS ClearAll) - validated, not proved, by "
-        "stream writers: DestinationRule/VirtualService/ServiceEntry(endpoints, ports)/EnvoyFilter/PeerAuthentication edits, Secret "
-        "rotation, create/delete of DR/VS/Sidecar/EnvoyFilter/PeerAuthentication, raw EndpointIndex updates without push",
+        "KeyDetermines + in-sync invalidation (hypothesis of cache_invisible): if the snapshot an entry was generated from and a "
+        "reader's snapshot agree on the entry's DependentConfigs() and the two keys (each computed on its own snapshot) are equal, "
+        "generation for the reader yields the stored value - i.e. the key distinguishes proxies (key completeness, Cacheable()) AND "
+        "carries a version/the names of every config generation reads beyond DependentConfigs() (peerAuthVersion, applicable "
+        "DR/VS/EF names: such entries stay stored but unreachable; stored entries are NOT claimed fresh); and every accepted change "
+        "of a declared dependency reaches Clear/ClearAll (dropCacheForRequest incl. Forced => ClearAll, EndpointIndex."
+        "clearCacheForService / deleteServiceInner / GetOrCreateEndpointShard / DeleteShard, PeerAuthentication => EDS ClearAll). "
+        "Validated, not proved, by streams keys and writers on the real generators",
         "the wall clock is strictly increasing between a writer's Start and any later Clear (Add rejects only token < cache token)",
         "ConfigKey.HashCode is injective on the configs in play; UnixNano of Start is non-negative",
         "KeyComplete (the cache key determines every input generation reads) is validated on the real key functions by the "
@@ -229,7 +253,7 @@ def run(ctx):
         for l in ctx.read_lines(st):
             f = l.split()
             if len(f) == 3:
-                if f[0].startswith("cache-entries") or f[0].startswith("served-from"):
+                if f[0].startswith("cache-entries") or f[0].startswith("served-from") or f[0].startswith("rds-"):
                     ctx.count("keys." + f[0], int(f[1]))
                 else:
                     ctx.count("keys.pairs.%s" % f[0], int(f[1]))
@@ -314,11 +338,11 @@ MANIFEST = {
                    "from scratch, single-attribute proxy pairs on generated meshes) and writer coherence of processRequest / "
                    "pushConnection / debug config dump (stream writers, sequential schedules only, entry points through "
                    "pilot/pkg/xds/zz_verif_c06.go). Goroutine races between the real writers and initPushContext are only explored by a stress "
-                   "run with passive probes (statistical). Assumed: strictly increasing wall clock, ConfigKey hash injective. GenLocal (DependentConfigs names everything "
-                   "generation reads; every accepted change reaches Clear) is a hypothesis validated by stream writers only. Five "
+                   "run with passive probes (statistical). Assumed: strictly increasing wall clock, ConfigKey hash injective. KeyDetermines (equal keys + agreement on DependentConfigs => same generation: key completeness and key versioning; "
+                   "stored entries are not claimed fresh) and in-sync invalidation are hypotheses validated by streams keys/writers only. Six "
                    "defects found by these streams were fixed in /repo (SDS key vs mesh-default private key provider; debug config "
                    "dump pairing LastPushContext with time.Now(); F8: ProxyUpdate/AdsPushAll pairing the global context with a clock "
-                   "read unsynchronised with cache invalidation + publication; EDS key and RDS key without the proxy's IP family)."),
+                   "read unsynchronised with cache invalidation + publication; EDS key and RDS key without the proxy's IP family; RDS key without the catch-all cluster)."),
     "technique": "Lean 4 theorems (induction over arbitrary op sequences) over an exact model of the cache state machine + differential correspondence with the real Go cache + property oracle with exhaustive small-interleaving enumeration + differential validation of the proof's hypotheses on the real generators",
     "design_ref": "DESIGN.md section 5 C06",
 }
